@@ -255,6 +255,10 @@ where
                                 warn!("Failed to send window content to consumer: {:?}", e);
                             }
                         }
+                        #[cfg(kolibrie_verif)]
+                        if self.consumer.is_some() {
+                            crate::verif_hooks::yield_point("s2r.content_sent");
+                        }
                         // single threaded consumer using callback
                         if let Some(call_back) = &mut self.call_back {
                             (call_back)(max_window.1.clone());
@@ -287,6 +291,10 @@ where
                 self.app_time = event_time;
                 if let Some(sender) = &self.consumer {
                     let _ = sender.send(max_window.1.clone());
+                }
+                #[cfg(kolibrie_verif)]
+                if self.consumer.is_some() {
+                    crate::verif_hooks::yield_point("s2r.content_sent");
                 }
                 if let Some(callback) = &mut self.call_back {
                     callback(max_window.1.clone());
